@@ -1,11 +1,18 @@
 /-
   Model of `AbacusHOD.staging` (abacusnbody/hod/abacus_hod.py) as far as property C12 is concerned:
-  which slab files are loaded, how the per-halo arrays are filled, the sort block, the particle host index.
+  which slab files are loaded, what each array is filled from, the per-slab fill loop with its ticker,
+  the sort block, the particle host index.
 
-  The real code keeps one *named array per attribute* (`hpos`, `hvel`, `hmass`, `hid`, …), fills each of
-  them slab after slab, and then
+  The real code keeps one *named array per attribute* (`hpos`, `hvel`, `hmass`, `hid`, …):
 
   ```python
+  hpos = np.empty((Nhalos_tot, 3)); …                         # one allocation per array
+  halo_ticker = 0
+  for eslab in range(start, end):
+      maskedhalos = newfile['halos']
+      halo_pos = maskedhalos['x_L2com']; halo_c = maskedhalos['r98_L2com'] / maskedhalos['r25_L2com']; …
+      hpos[halo_ticker : halo_ticker + Nhalos[eslab - start]] = halo_pos; …      # one statement per array
+      halo_ticker += Nhalos[eslab - start]
   if not np.all(hid[:-1] <= hid[1:]):
       sortind = np.argsort(hid)
       hpos = hpos[sortind]; hvel = hvel[sortind]; …          # one statement per array
@@ -16,14 +23,21 @@
   pinds = _searchsorted_parallel(hid, phid)                   # res[i] = np.searchsorted(a, b[i])
   ```
 
-  The model keeps that shape: a table is `hid` plus a list of *named columns*, and the sort block takes
-  the explicit list `permuted` of the array names that have an `X = X[sortind]` statement (regenerated
-  from the source into `Generated/StagingCols.lean`).  A column whose name is not in `permuted` is left
-  in file order, exactly as the code would leave it — the model can exhibit that failure.
+  The model keeps that shape.  A table is an id column plus a list of *named columns*.
+  * What an array is filled from is an expression `Src` over the columns of the slab's dataset, taken from the
+    table `haloSources` / `partSources` that `harness/props/c12.py` regenerates from the source
+    (`Generated/StagingCols.lean`); `evalSrc` evaluates it column-wise, as numpy does.
+  * The fill loop is modelled as coded: an array of `Nhalos_tot` cells without a value (`np.empty`), per slab a
+    slice assignment `arr[ticker : ticker + n] = values` turned into a *write list* whose indices go through
+    the Python index rule, and the ticker advanced by the slab's count.  A wrong ticker shows up as a shape
+    mismatch (numpy clips the slice), an overwritten cell or a cell that never gets a value.
+  * The sort block takes the explicit list `permuted` of the array names that have an `X = X[sortind]`
+    statement (regenerated from the source).  A column whose name is not in `permuted` is left in file
+    order, exactly as the code would leave it — the model can exhibit that failure.
   The record-wise view (`HaloRec`, `toCols`) is what the theorems in `Props/C12.lean` relate it to.
 
-  Core Lean only.  numpy's `argsort` (as a stable sort of the (id, index) pairs), `searchsorted`, fancy indexing `arr[sortind]`, slice assignment of
-  consecutive slabs (= concatenation) are modelled by their specifications.
+  Core Lean only.  numpy's `argsort` (as a stable sort of the (id, index) pairs), `searchsorted`, fancy
+  indexing `arr[sortind]`, element-wise `/` and `*` are modelled by their specifications.
 -/
 import AbacusVerif.Model.Common
 import AbacusVerif.Generated.StagingCols
@@ -83,14 +97,10 @@ def searchsortedLeft (a : List Nat) (v : Nat) : Nat :=
 
 abbrev NamedCols (Val : Type) := List (String × List Val)
 
-/-- the per-halo arrays of `staging`: the id array and the other named arrays -/
+/-- an id column and named parallel columns: the per-halo arrays of `staging` (`hid` and the others), the
+per-particle arrays (`phid` as the id column), and equally one slab *dataset* (its id field and its fields) -/
 structure HaloCols (Val : Type) where
   hid : List Nat
-  cols : NamedCols Val
-
-/-- the per-particle arrays: host id and the other named arrays -/
-structure PartCols (Val : Type) where
-  phid : List Nat
   cols : NamedCols Val
 
 /-- column `n` of one slab file; a missing field is a `KeyError` (rejected), a column whose length differs
@@ -100,18 +110,87 @@ def getCol {Val : Type} (cols : NamedCols Val) (n : String) (len : Nat) : Except
   | some v => if v.length = len then .ok v else .error .badLength
   | none => .error .rejected
 
-/-- array `n` after the fill loop, `X[halo_ticker : halo_ticker + Nhalos[k]] = slab_k's X` for `k = 0, 1, …`
-into an array of the total length: the concatenation of the slabs' columns -/
+/-! ### the fill loop -/
+
+/-- the writes of `arr[ticker : ticker + n] = vals` on an array of length `len`.  numpy clips the slice to
+the array; the value must have the length of the (clipped) slice, except that a single value is broadcast.
+Every written index goes through the Python index rule. -/
+def sliceWrites {α : Type} (len ticker n : Nat) (vals : List α) : Except Fault (List (Nat × α)) :=
+  let lo := min ticker len
+  let hi := min (ticker + n) len
+  let put (p : α × Nat) : Except Fault (Nat × α) :=
+    match idx len (p.2 : Int) with
+    | .ok k => .ok (k, p.1)
+    | .error e => .error e
+  if vals.length = hi - lo then mapE put (vals.zipIdx lo)
+  else
+    match vals with
+    | [v] => mapE put ((List.replicate (hi - lo) v).zipIdx lo)       -- broadcast of a length-1 value
+    | _ => .error .badLength                                           -- ValueError: could not broadcast
+
+/-- the loop `for eslab in range(start, end)` for one array: slab `k` contributes
+`arr[ticker : ticker + counts[k]] = vals_k`, then `ticker += counts[incIdx k]` (the code has `incIdx k = k`:
+`halo_ticker += Nhalos[eslab - start]`).  Returns all writes in program order. -/
+def fillLoop {α : Type} (total : Nat) (counts : List Nat) (incIdx : Nat → Nat) :
+    List (List α) → Nat → Nat → List (Nat × α) → Except Fault (List (Nat × α))
+  | [], _, _, ws => .ok ws
+  | vals :: rest, k, ticker, ws =>
+    match getAt counts k with
+    | .error e => .error e
+    | .ok n =>
+      match sliceWrites total ticker n vals with
+      | .error e => .error e
+      | .ok w =>
+        match getAt counts (incIdx k) with
+        | .error e => .error e
+        | .ok inc => fillLoop total counts incIdx rest (k + 1) (ticker + inc) (ws ++ w)
+
+def fillArr {α : Type} (total : Nat) (counts : List Nat) (parts : List (List α)) : Except Fault (List (Nat × α)) :=
+  fillLoop total counts id parts 0 0 []
+
+/-- `np.empty(total)`: cells without a value -/
+def allocate {α : Type} (total : Nat) : List (Option α) := List.replicate total none
+
+/-- reading the array afterwards: a cell that never got a value is uninitialised memory, for which the
+model has no value (rejected) -/
+def cellValue {α : Type} : Option α → Except Fault α
+  | some v => .ok v
+  | none => .error .rejected
+
+def readBack {α : Type} (a : List (Option α)) : Except Fault (List α) :=
+  mapE cellValue a
+
+/-- one array after the fill loop: `Nhalos_tot = sum(Nhalos)` cells, the slabs' writes applied in program order
+(`incIdx` as in `fillLoop`; a later write to the same cell overwrites, as in numpy) -/
+def fillColumnWith {α : Type} (incIdx : Nat → Nat) (counts : List Nat) (parts : List (List α)) :
+    Except Fault (List α) :=
+  let total := counts.sum
+  match fillLoop total counts incIdx parts 0 0 [] with
+  | .error e => .error e
+  | .ok ws => readBack (applyWrites (allocate total) (ws.map (fun w => (w.1, some w.2))))
+
+/-- the fill loop as coded: `ticker += counts[k]` after slab `k` -/
+def fillColumn {α : Type} (counts : List Nat) (parts : List (List α)) : Except Fault (List α) :=
+  fillColumnWith id counts parts
+
+/-- array `n` after the fill loop, `X[halo_ticker : halo_ticker + Nhalos[k]] = slab_k's X` for `k = 0, 1, …`;
+`Nhalos[k] = len(newfile['halos'])` is the row count of slab `k` -/
 def slabCol {Val : Type} (slabs : List (HaloCols Val)) (n : String) : Except Fault (String × List Val) :=
   match mapE (fun s => getCol s.cols n s.hid.length) slabs with
   | .error e => .error e
-  | .ok parts => .ok (n, parts.flatten)
+  | .ok parts =>
+    match fillColumn (slabs.map (·.hid.length)) parts with
+    | .error e => .error e
+    | .ok v => .ok (n, v)
 
-/-- the fill loop for every allocated array name -/
+/-- the fill loop for the id array and every allocated array name -/
 def concatCols {Val : Type} (names : List String) (slabs : List (HaloCols Val)) : Except Fault (HaloCols Val) :=
-  match mapE (slabCol slabs) names with
+  match fillColumn (slabs.map (·.hid.length)) (slabs.map (·.hid)) with
   | .error e => .error e
-  | .ok cols => .ok { hid := (slabs.map (·.hid)).flatten, cols := cols }
+  | .ok hid =>
+    match mapE (slabCol slabs) names with
+    | .error e => .error e
+    | .ok cols => .ok { hid := hid, cols := cols }
 
 /-- one statement `X = X[sortind]`, present only for the arrays named in `permuted` -/
 def permuteCol {Val : Type} (permuted : List String) (sortind : List Nat) (c : String × List Val) :
@@ -174,61 +253,99 @@ def stageHalos {Val : Type} (permuted names : List String) (slabs : List (HaloCo
   | .error e => .error e
   | .ok t => sortBlock permuted t
 
-/-- legacy halo files with a 1-D velocity-deviate column: `np.stack((v, v, v), axis=1)` -/
-def stackVelDev {Val : Type} (triple : Val → Val) (veldev1d : Bool) (s : HaloCols Val) : HaloCols Val :=
-  if veldev1d then
-    { s with cols := s.cols.map (fun c => if c.1 = "hveldev" then (c.1, c.2.map triple) else c) }
-  else s
+/-! ### what each array is filled from -/
 
-/-! ### the particle side -/
+open AbacusVerif.Generated.StagingCols in
+/-- the value operations the source expressions need (`/`, `* params[...]`), the constants of the defaults
+and `np.stack((v, v, v), axis=1)` on one value -/
+structure Ops (Val : Type) where
+  div : Val → Val → Val
+  mulParam : String → Val → Val
+  zero : Val
+  one : Val
+  triple : Val → Val
 
-def partCol {Val : Type} (slabs : List (PartCols Val)) (n : String) : Except Fault (String × List Val) :=
-  match mapE (fun s => getCol s.cols n s.phid.length) slabs with
+open AbacusVerif.Generated.StagingCols in
+/-- a source expression evaluated on one slab dataset, column-wise.  The id column is kept apart (`hid`),
+so `astype(int)` only occurs on it and is the identity on exact values. -/
+def evalSrc {Val : Type} (ops : Ops Val) (t : HaloCols Val) : Src → Except Fault (List Val)
+  | .field f => getCol t.cols f t.hid.length
+  | .asInt a => evalSrc ops t a
+  | .div a b =>
+    match evalSrc ops t a, evalSrc ops t b with
+    | .ok x, .ok y => .ok (List.zipWith ops.div x y)
+    | .error e, _ => .error e
+    | _, .error e => .error e
+  | .mulParam a p =>
+    match evalSrc ops t a with
+    | .ok x => .ok (x.map (ops.mulParam p))
+    | .error e => .error e
+  | .fieldOrZeros f =>
+    match t.cols.lookup f with
+    | some v => if v.length = t.hid.length then .ok v else .error .badLength
+    | none => .ok (List.replicate t.hid.length ops.zero)
+
+open AbacusVerif.Generated.StagingCols in
+/-- the one source expression of array `v` under the flag set; none or several is not a program the model
+can mirror -/
+def singleSource (tab : List (String × Src × Guard)) (flags : List String) (v : String) : Except Fault Src :=
+  match sourcesOf tab flags v with
+  | [s] => .ok s
+  | _ => .error .rejected
+
+open AbacusVerif.Generated.StagingCols in
+/-- the values slab `t` contributes to array `v`; a 1-D velocity-deviate column is stacked three times -/
+def slabArray {Val : Type} (ops : Ops Val) (tab : List (String × Src × Guard)) (flags : List String)
+    (veldev1d : Bool) (t : HaloCols Val) (v : String) : Except Fault (String × List Val) :=
+  match singleSource tab flags v with
   | .error e => .error e
-  | .ok parts => .ok (n, parts.flatten)
+  | .ok src =>
+    match evalSrc ops t src with
+    | .error e => .error e
+    | .ok col => .ok (v, if veldev1d && v == "hveldev" then col.map ops.triple else col)
 
-def concatParts {Val : Type} (names : List String) (slabs : List (PartCols Val)) : Except Fault (PartCols Val) :=
-  match mapE (partCol slabs) names with
+open AbacusVerif.Generated.StagingCols in
+def slabArrays {Val : Type} (ops : Ops Val) (tab : List (String × Src × Guard)) (flags : List String)
+    (veldev1d : Bool) (names : List String) (t : HaloCols Val) : Except Fault (HaloCols Val) :=
+  match mapE (slabArray ops tab flags veldev1d t) names with
   | .error e => .error e
-  | .ok cols => .ok { phid := (slabs.map (·.phid)).flatten, cols := cols }
-
-def rankNames : List String := ["pranks", "pranksv", "pranksp", "pranksr", "pranksc"]
-def optionalRankNames : List String := ["pranksp", "pranksr", "pranksc"]
-
-/-- the rank arrays: all ones without `want_ranks`; with it `ranks`/`ranksv` are required and a missing
-`ranksp`/`ranksr`/`ranksc` field is replaced by zeros -/
-def rankCols {Val : Type} (one zero : Val) (wantRanks : Bool) (slabs : List (PartCols Val)) :
-    Except Fault (NamedCols Val) :=
-  let n := ((slabs.map (·.phid)).flatten).length
-  if ¬ wantRanks then .ok (rankNames.map (fun r => (r, List.replicate n one)))
-  else
-    mapE (fun r =>
-      match mapE (fun s =>
-          match s.cols.lookup r with
-          | some v => if v.length = s.phid.length then .ok v else .error .badLength
-          | none => if r ∈ optionalRankNames then .ok (List.replicate s.phid.length zero) else .error .rejected)
-          slabs with
-      | .error e => .error e
-      | .ok parts => .ok (r, parts.flatten)) rankNames
+  | .ok cols => .ok { hid := t.hid, cols := cols }
 
 /-! ### driver -/
 
-abbrev DVal := List Int
+/-- driver values: vectors of exact rationals (sent scaled by `unit`) -/
+abbrev DVal := List Rat
 
-def parseVal? (s : String) : Option DVal := (s.splitOn ":").mapM (fun t => t.toInt?)
+def dOps (params : List (String × Rat)) : Ops DVal where
+  div := fun x y => List.zipWith (· / ·) x y
+  mulParam := fun p x => match params.lookup p with
+    | some c => x.map (· * c)
+    | none => []                       -- an unknown parameter leaves no value (shows up as a disagreement)
+  zero := [0]
+  one := [1]
+  triple := fun x => x ++ x ++ x
 
-def parseCol? (s : String) : Option (List DVal) :=
-  if s = "-" then some [] else (s.splitOn ",").mapM parseVal?
+def parseVal? (unit : Int) (s : String) : Option DVal :=
+  (s.splitOn ":").mapM (fun t => t.toInt?.map (fun i => (i : Rat) / (unit : Rat)))
 
-def showVal (v : DVal) : String := ":".intercalate (v.map toString)
-def showCol (c : List DVal) : String := if c.isEmpty then "-" else ",".intercalate (c.map showVal)
+def parseCol? (unit : Int) (s : String) : Option (List DVal) :=
+  if s = "-" then some [] else (s.splitOn ",").mapM (parseVal? unit)
 
+def showRatScaled (unit : Int) (x : Rat) : String :=
+  let y := x * (unit : Rat)
+  if y.den = 1 then toString y.num else s!"{y.num}/{y.den}"
+
+def showVal (unit : Int) (v : DVal) : String := ":".intercalate (v.map (showRatScaled unit))
+def showCol (unit : Int) (c : List DVal) : String :=
+  if c.isEmpty then "-" else ",".intercalate (c.map (showVal unit))
+
+/-- one slab file pair: the `halos` dataset and the `particles` dataset (id column + named columns) -/
 structure Slab where
   halos : HaloCols DVal
-  parts : PartCols DVal
+  parts : HaloCols DVal
 
-/-- tokens of one slab: `hid <list> (col <name> <vals>)* phid <list> (pcol <name> <vals>)*` -/
-def parseSlab? (toks : List String) : Option Slab :=
+/-- tokens of one slab: `hid <ids> (col <field> <vals>)* phid <ids> (pcol <field> <vals>)*` -/
+def parseSlab? (unit : Int) (toks : List String) : Option Slab :=
   let rec go (toks : List String) (s : Slab) : Option Slab :=
     match toks with
     | [] => some s
@@ -237,15 +354,15 @@ def parseSlab? (toks : List String) : Option Slab :=
       go rest { s with halos := { s.halos with hid := ids } }
     | "phid" :: l :: rest => do
       let ids ← parseNatList? l
-      go rest { s with parts := { s.parts with phid := ids } }
+      go rest { s with parts := { s.parts with hid := ids } }
     | "col" :: n :: v :: rest => do
-      let c ← parseCol? v
+      let c ← parseCol? unit v
       go rest { s with halos := { s.halos with cols := s.halos.cols ++ [(n, c)] } }
     | "pcol" :: n :: v :: rest => do
-      let c ← parseCol? v
+      let c ← parseCol? unit v
       go rest { s with parts := { s.parts with cols := s.parts.cols ++ [(n, c)] } }
     | _ => none
-  go toks { halos := { hid := [], cols := [] }, parts := { phid := [], cols := [] } }
+  go toks { halos := { hid := [], cols := [] }, parts := { hid := [], cols := [] } }
 
 /-- split the token list at every `slab` keyword -/
 def splitSlabs (toks : List String) : List (List String) :=
@@ -264,10 +381,18 @@ structure Req where
   loadParts : Bool
   veldev1d : Bool
   unit : Int
+  params : List (String × Rat)
+
+def parseParams? (unit : Int) (s : String) : Option (List (String × Rat)) :=
+  if s = "-" then some []
+  else (s.splitOn ",").mapM (fun t =>
+    match t.splitOn ":" with
+    | [k, v] => v.toInt?.map (fun i => (k, (i : Rat) / (unit : Rat)))
+    | _ => none)
 
 def parseReq? (hd : List String) : Option Req :=
   match hd with
-  | [a, b, c, d, e, f, g] => do
+  | [a, b, c, d, e, f, g, h] => do
     let nfiles ← (kv? "nfiles" a) >>= parseNat?
     let nChunks ← (kv? "nchunks" b) >>= parseNat?
     let chunk ← (kv? "chunk" c) >>= parseInt?
@@ -275,12 +400,16 @@ def parseReq? (hd : List String) : Option Req :=
     let lp ← (kv? "parts" e) >>= parseBool?
     let v1 ← (kv? "veldev1d" f) >>= parseBool?
     let unit ← (kv? "unit" g) >>= parseInt?
+    let params ← (kv? "params" h) >>= parseParams? unit
     some { nfiles, nChunks, chunk, flags := if fl = "-" then [] else fl.splitOn ",",
-           loadParts := lp, veldev1d := v1, unit }
+           loadParts := lp, veldev1d := v1, unit, params }
   | _ => none
 
-def showNamed (pre : String) (cols : NamedCols DVal) : String :=
-  " ".intercalate (cols.map (fun c => s!"{pre}:{c.1}={showCol c.2}"))
+def showNamed (unit : Int) (pre : String) (cols : NamedCols DVal) : String :=
+  " ".intercalate (cols.map (fun c => s!"{pre}:{c.1}={showCol unit c.2}"))
+
+def dedup (l : List String) : List String :=
+  l.foldl (fun acc x => if acc.contains x then acc else acc ++ [x]) []
 
 open AbacusVerif.Generated.StagingCols in
 def runStaging (q : Req) (slabs : List Slab) : Except Fault String :=
@@ -290,34 +419,56 @@ def runStaging (q : Req) (slabs : List Slab) : Except Fault String :=
   match pickSlabs slabs r with
   | .error e => .error e
   | .ok loaded =>
+  if q.veldev1d && velDev1d ≠ "stack-axis1" then .error .rejected   -- a 1-D branch the model does not know
+  else
+  let ops := dOps q.params
+  -- halo side: per slab the arrays of the returned names, fill loop, sort block, assert
   let names := (returnedVars q.flags).filter (· ≠ "hid")
-  let hslabs := loaded.map (fun s => stackVelDev (fun x => x ++ x ++ x) q.veldev1d s.halos)
+  match mapE (fun s => slabArrays ops haloSources q.flags q.veldev1d names s.halos) loaded with
+  | .error e => .error e
+  | .ok hslabs =>
   match stageHalos (permutedVars q.flags) names hslabs with
   | .error e => .error e
   | .ok h =>
-  let pslabs := if q.loadParts then loaded.map (·.parts) else []
-  match concatParts (partVars q.flags) pslabs with
+  -- particle side: every array with an active fill statement (the id array `phid` apart), fill loop
+  let pvars := dedup (((partSources.filter (fun e => guardActive q.flags e.2.2)).map (·.1)).filter (· ≠ "phid"))
+  let ploaded := if q.loadParts then loaded else []
+  match mapE (fun s => slabArrays ops partSources q.flags false pvars s.parts) ploaded with
+  | .error e => .error e
+  | .ok pslabs =>
+  match concatCols pvars pslabs with
   | .error e => .error e
   | .ok p =>
-  match rankCols [q.unit] [0] (q.flags.contains "want_ranks") pslabs with
-  | .error e => .error e
-  | .ok rk =>
-    .ok s!"ok numslabs={r.2} hid={showList h.hid} {showNamed "h" h.cols} phid={showList p.phid} pinds={showList (pinds h.hid p.phid)} {showNamed "p" (p.cols ++ rk)}"
+  let n := p.hid.length
+  -- what particle_data returns: local arrays under their key, constants
+  let ret := (partReturned.filter (fun e => guardActive q.flags e.2.2)).filterMap (fun e =>
+    match p.cols.lookup e.2.1 with
+    | some v => some (e.1, v)
+    | none => none)
+  let dflt := (partDefaults.filter (fun e => guardActive q.flags e.2.2)).map (fun e =>
+    (e.1, List.replicate n (if e.2.1 = "ones" then ops.one else ops.zero)))
+  let retVars := (partReturned.filter (fun e => guardActive q.flags e.2.2)).map (·.2.1)
+  let aux := p.cols.filter (fun c => !(retVars.contains c.1))
+  .ok s!"ok numslabs={r.2} hid={showList h.hid} {showNamed q.unit "h" h.cols} phid={showList p.hid} pinds={showList (pinds h.hid p.hid)} {showNamed q.unit "p" (ret ++ dflt)} {showNamed q.unit "aux" aux}"
 
 /-- request: `staging nfiles=<n> nchunks=<n> chunk=<int> flags=<want_AB,…|-> parts=<0|1> veldev1d=<0|1> unit=<int>
-(slab hid <ids> (col <name> <vals>)* phid <ids> (pcol <name> <vals>)*)*` — one `slab` group per slab *file*
-(all of them; the model picks the loaded range).  A value is `:`-joined integers, a column `,`-joined values. -/
+params=<name:scaled,…|-> (slab hid <ids> (col <field> <vals>)* phid <ids> (pcol <field> <vals>)*)*` — one `slab`
+group per slab *file* (all of them; the model picks the loaded range), columns named by dataset *field*.
+A value is `:`-joined integers (the exact value times `unit`), a column `,`-joined values. -/
 def handle (args : List String) : String :=
   match args with
   | "staging" :: rest =>
     let hd := rest.takeWhile (· ≠ "slab")
     let body := rest.dropWhile (· ≠ "slab")
-    match parseReq? hd, (splitSlabs body).mapM parseSlab? with
-    | some q, some slabs =>
-      match runStaging q slabs with
-      | .ok s => s
-      | .error f => s!"err {f}"
-    | _, _ => "bad-op"
+    match parseReq? hd with
+    | some q =>
+      match (splitSlabs body).mapM (parseSlab? q.unit) with
+      | some slabs =>
+        match runStaging q slabs with
+        | .ok s => s
+        | .error f => s!"err {f}"
+      | none => "bad-op"
+    | none => "bad-op"
   | ["argsort", l] =>
     match parseNatList? l with
     | some ids => showList (argsort ids)
@@ -325,6 +476,13 @@ def handle (args : List String) : String :=
   | ["searchsorted", l, v] =>
     match parseNatList? l, parseNat? v with
     | some a, some v => toString (searchsortedLeft a v)
+    | _, _ => "bad-op"
+  | ["fill", c, l] =>   -- `fill <counts> <slab lengths>`: the fill loop on arrays of serial numbers (debug aid)
+    match parseNatList? c, parseNatList? l with
+    | some counts, some lens =>
+      match fillColumn counts (lens.map (fun n => List.range n)) with
+      | .ok v => showList v
+      | .error f => s!"err {f}"
     | _, _ => "bad-op"
   | _ => "bad-op"
 
